@@ -125,6 +125,11 @@ def g2_g3(F, rep):
                     continue
                 if re.match(r"^var\(_\d+\)$", d):   # drop flags
                     continue
+                # (after the D11 fix) the IDAT payload must be exactly the stream: `compressed_size == payload.len()` only
+                # rejects payloads with bytes between the last block and the Adler-32, which the property does not cover
+                # (it embeds S itself as the payload) and which the container could not represent
+                if vname == "IDAT" and re.match(r"^(Eq|Ne)\(var\(res\)\.compressed_size, len\(var\(payload\)\)\)$", d):
+                    continue
                 extra.append(d)
             rep.add("G3", "no-extra-accept-condition:%s" % vname, not extra, b.where(tgt), "additional conditions on the accepting path: %s" % extra)
     rep.floor("G2", "signature-variants", len(disc), 4)
